@@ -227,6 +227,12 @@ def step (st : St) (_n : Nat) (line : String) : St × List Finding :=
                 else some ⟨"C07", s!"reported TEID {t} is not programmed in any PDR entry"⟩
             | none => none)
         else if getNat obs "seid" != req.cpSeid ∧ getNat obs "seid" != 0 then [⟨"C02", "rejected establishment addressed to a foreign SEID"⟩] else [])
+      -- C08: a PDR naming an application the association's accepted PFD requests provisioned is not refused for it
+      let provisioned := (st.w.conn a).apps.map (·.1)
+      let fs := fs ++ (req.pdrs.filterMap fun p => match p.app with
+        | some id => if provisioned.contains id ∧ getNat obs "cause" != 1 ∧ r.cause = 1 then
+            some ⟨"C08", s!"a PDR naming application {id}, provisioned by an accepted PFD Management Request of this association, was refused (cause {getNat obs "cause"})"⟩ else none
+        | none => none)
       let (st'', tf) := tableFindings st' obs true (if r.cause = 1 then "est" else "est-rejected")
       let qf := if getNat obs "cause" = 1 then qosFindings "est: " st.cfg (getStrs obs "tables") upSeid req.qers else []
       (st'', fs ++ tf ++ qf)
